@@ -223,6 +223,9 @@ func Content(class string, rng *rand.Rand, text bool) []byte {
 		return []byte("a=b and ==== and =3D and =\r\n=\r\n=4\r\nsoft= \r\n")
 	case "from":
 		return []byte("From here to there\r\n>From quoted\r\nFrom \r\n")
+	case "fromlong": // lines that start with "From " and are as long as an encoded line may be - or need a soft break
+		return []byte("From " + repeat("x", 70) + "\r\nFrom " + repeat("y", 71) + "\r\n" +
+			"From the very beginning this paragraph has been far longer than seventy-six characters and needs soft line breaks\r\nFrom \r\n")
 	case "bdry":
 		return []byte("--\r\n--=_verif\r\n--b0undary-of-verifX\r\n--b0undary-of-veri\r\n----\r\n--b0undary-of-verif--X\r\ntext\r\n")
 	case "len75":
